@@ -100,3 +100,11 @@ Print Assumptions C06_accept_mono_old_refuted_merge.
 Theorem C06_any_never_blamed : forall E e d, In d (snd (check E e)) -> ~ In TAny (blamed (d_kind d)).
 Proof. exact any_never_blamed. Qed.
 Print Assumptions C06_any_never_blamed.
+
+(* the rule-level checks applied to the result type of an accepted expression *)
+Theorem C06_template_type_check_mono : forall t t', looser t t' -> template_ok t = true -> template_ok t' = true.
+Proof. exact template_type_check_mono. Qed.
+Print Assumptions C06_template_type_check_mono.
+Theorem C06_typed_input_check_mono : forall d t t', looser t t' -> typed_input_ok d t = true -> typed_input_ok d t' = true.
+Proof. exact typed_input_check_mono. Qed.
+Print Assumptions C06_typed_input_check_mono.
